@@ -4,7 +4,7 @@
     which func was called, in call order.  [find_root_h] additionally tags how a number was reached.
     [ROps] is the real-number instance; f is an ARBITRARY function R -> R unless continuity is stated. *)
 From Coq Require Import Reals ZArith List Bool.
-From LP Require Import Num NumR OrdLaws C02_Model C02_Proofs C02_Proofs2 C02_Proofs3 C02_Proofs4.
+From LP Require Import Num NumR OrdLaws C02_Model C02_Proofs C02_Proofs2 C02_Proofs3 C02_Proofs4 C02_Proofs5.
 Import ListNotations.
 Local Open Scope R_scope.
 
@@ -254,3 +254,125 @@ Theorem C02_pass_shape_any_instance {T : Type} (Ops : NumOps T) (f : T -> T) (ac
   end.
 Proof. exact (step_shape Ops f acc s). Qed.
 Print Assumptions C02_pass_shape_any_instance.
+
+(** TERMINATION AND SHAPE OF EVERY RUN, on EVERY instance of the number interface (no law of arithmetic or order is
+    used: IEEE doubles with rounding, infinities and NaN abscissae or values included), by induction over the
+    iteration budget.  The evaluation trace is xl, xr (the ends after the swap) followed by tr, and exactly one of:
+    tr is empty (exit, or an end returned as a zero); tr has 2k entries, 1 <= k <= Max_Iterations (k passes), and the
+    run ends with an exit or returns the abscissa of the LAST evaluation (tagged HF4Zero or HBracket); tr has
+    2 Max_Iterations + 1 entries and the number returned (tagged HMaxIter) is the abscissa of the last TWO evaluations
+    (Ridder's point of the last pass, evaluated once more for the warning).  The outcomes OOB and Fuel never occur. *)
+Theorem C02_trace_shape_any_instance {T : Type} (Ops : NumOps T) (f : T -> T) (a b acc : T) :
+  let r := find_root_h Ops f a b acc in
+  let xl := if ngtb Ops a b then b else a in
+  let xr := if ngtb Ops a b then a else b in
+  exists tr, snd r = xl :: xr :: tr /\
+  ( (tr = [] /\ (fst r = Exit \/ fst r = Ok (xl, HEndZero) \/ fst r = Ok (xr, HEndZero)))
+    \/ (exists k, (1 <= k <= max_iterations)%nat /\ length tr = (2 * k)%nat /\
+          (fst r = Exit \/ exists x h tr0, fst r = Ok (x, h) /\ (h = HF4Zero \/ h = HBracket) /\ tr = tr0 ++ [x]))
+    \/ (length tr = (2 * max_iterations + 1)%nat /\ exists x tr0, fst r = Ok (x, HMaxIter) /\ tr = tr0 ++ [x; x]) ).
+Proof. exact (trace_shape Ops f a b acc). Qed.
+Print Assumptions C02_trace_shape_any_instance.
+
+(** ... hence, on every instance: Find_Root terminates after at least 2 and at most 2 Max_Iterations + 3 evaluations of
+    the objective function, with a number or an exit, and a number returned is one of the abscissae at which the
+    function was evaluated ("returns a point inside the bracket" reduces to "never evaluates outside the bracket"). *)
+Theorem C02_evaluation_budget_any_instance {T : Type} (Ops : NumOps T) (f : T -> T) (a b acc : T) :
+  (2 <= length (snd (find_root_h Ops f a b acc)) <= 2 * max_iterations + 3)%nat /\
+  (fst (find_root_h Ops f a b acc) = Exit \/ exists x h, fst (find_root_h Ops f a b acc) = Ok (x, h)) /\
+  (forall x h, fst (find_root_h Ops f a b acc) = Ok (x, h) -> In x (snd (find_root_h Ops f a b acc))).
+Proof. exact (evaluation_budget Ops f a b acc). Qed.
+Print Assumptions C02_evaluation_budget_any_instance.
+(** hypotheses satisfiable / the middle alternative is inhabited: [first_pass_example] (C02_Proofs4.v), a run with k = 1. *)
+
+(** "it never evaluates the function outside the bracket" and "returns a point inside the bracket", for ALL passes,
+    on every ORDERED instance of the number interface (order laws only: rounding of everything Ridder's formula
+    computes is arbitrary), under ONE premise about arithmetic, [mid_between]: the code's midpoint 0.5 x + 0.5 y lies
+    in [min(x,y), max(x,y)] for all x, y.  [ins lo hi x] = lo <= x <= hi in the instance's order.
+    _partial: for IEEE doubles the premise is not proved here (it is a fact about two halvings and one correctly
+    rounded addition; the correspondence check and the predicate `location` test it on every run), and NaN
+    abscissae are outside the order laws.  Over the reals the premise holds ([C02_midpoint_between_reals]). *)
+Theorem C02_evaluations_inside_ordered_partial {T : Type} (Ops : NumOps T) (OL : OrdLaws Ops) (f : T -> T) (a b acc : T) :
+  mid_between Ops ->
+  let xl := if ngtb Ops a b then b else a in
+  let xr := if ngtb Ops a b then a else b in
+  Forall (ins Ops xl xr) (snd (find_root_h Ops f a b acc)) /\
+  forall x h, fst (find_root_h Ops f a b acc) = Ok (x, h) -> ins Ops xl xr x.
+Proof. exact (fun Hm => evaluations_inside_ordered Ops OL Hm f a b acc). Qed.
+Print Assumptions C02_evaluations_inside_ordered_partial.
+
+Theorem C02_midpoint_between_reals : OrdLaws ROps /\ mid_between ROps.
+Proof. exact (conj ROps_OrdLaws mid_between_R). Qed.
+Print Assumptions C02_midpoint_between_reals.
+
+(** Strictly monotone objective functions (the power laws x^p - c, CDFs, atan, tanh of the property's quantifier),
+    continuity NOT assumed: EVERY zero z of f, wherever it is, is the returned number or lies within the requested
+    accuracy of it (resp. within 2^-2200 of the original width after an iteration-limit return): the answer is
+    within the accuracy of THE root, not merely of some sign change. *)
+Theorem C02_monotone_every_root_close (f : R -> R) (a b acc r : R) :
+  (forall x y, x < y -> f x < f y) \/ (forall x y, x < y -> f y < f x) ->
+  fst (find_root ROps f a b acc) = Ok r ->
+  forall z, f z = 0 ->
+    z = r \/ Rabs (z - r) < acc \/ Rabs (z - r) <= (Rmax a b - Rmin a b) / 2 ^ max_iterations.
+Proof. exact (monotone_every_root_close f a b acc r). Qed.
+Print Assumptions C02_monotone_every_root_close.
+(** hypotheses satisfiable: [monotone_example] (x^3 - 2 on [0,2] is strictly increasing and a number is returned). *)
+
+(** Histories, the converse of C02_history_independent without any premise: EVERY entry of the list of answers of a
+    history is the answer to the request at the same position served on its own, every earlier request returned a
+    number, and there are never more answers than requests (induction over the history). *)
+Theorem C02_history_entries {T : Type} (Ops : NumOps T) (reqs : list ((T -> T) * T * T * T)) :
+  (length (find_root_seq Ops reqs) <= length reqs)%nat /\
+  forall k o, nth_error (find_root_seq Ops reqs) k = Some o ->
+    exists q, nth_error reqs k = Some q /\ o = serve Ops q /\
+              forall j p, (j < k)%nat -> nth_error reqs j = Some p -> exists v, fst (serve Ops p) = Ok v.
+Proof. exact (conj (seq_length Ops reqs) (seq_entries_are_serves Ops reqs)). Qed.
+Print Assumptions C02_history_entries.
+
+(** THE STOPPING TEST AND THE ACCURACY CLAUSE ON EVERY INSTANCE of the number interface (no law of arithmetic or order:
+    IEEE doubles, rounding included), by induction over the iteration budget.  A number returned through the in-loop
+    test f4 == 0 is a point where the computed function value == 0.  A number returned because the bracket became
+    narrower than xAccuracy is one of two abscissae u, v at which the objective function was evaluated during this very
+    call, whose values pass the code's own sign test in one orientation ([opp p q] = Sign(p,q) != p and not q == 0; for
+    non-NaN doubles: both non-zero and of different sign), and whose distance AS THE INSTANCE COMPUTES IT, fabs(v - u),
+    is < xAccuracy: "the function changes sign within the requested accuracy of that point", up to the one rounding of v - u. *)
+Theorem C02_stopping_test_any_instance {T : Type} (Ops : NumOps T) (f : T -> T) (a b acc x : T) :
+  (fst (find_root_h Ops f a b acc) = Ok (x, HF4Zero) -> neqb Ops (f x) (n0 Ops) = true) /\
+  (fst (find_root_h Ops f a b acc) = Ok (x, HBracket) ->
+     exists u v, (x = u \/ x = v) /\ nltb Ops (nabs Ops (nsub Ops v u)) acc = true /\
+                 (opp Ops (f u) (f v) \/ opp Ops (f v) (f u)) /\
+                 In u (snd (find_root_h Ops f a b acc)) /\ In v (snd (find_root_h Ops f a b acc))).
+Proof. exact (stopping_test Ops f a b acc x). Qed.
+Print Assumptions C02_stopping_test_any_instance.
+
+(** ... which over the reals, where [opp p q] is p * q < 0 ([opp_R]), is the accuracy clause again, now with the two
+    ends identified as evaluated abscissae of the call. *)
+Theorem C02_stopping_test_reals (f : R -> R) (a b acc x : R) :
+  fst (find_root_h ROps f a b acc) = Ok (x, HBracket) ->
+  exists u v, (x = u \/ x = v) /\ Rabs (v - u) < acc /\ f u * f v < 0 /\
+              In u (snd (find_root_h ROps f a b acc)) /\ In v (snd (find_root_h ROps f a b acc)).
+Proof. exact (stopping_test_R f a b acc x). Qed.
+Print Assumptions C02_stopping_test_reals.
+(** hypotheses satisfiable: [stopping_test_example] (3x - 1 on [0,2], accuracy 3: answered by one of the two in-loop returns). *)
+
+(** "whichever order the ends are given in", on every ORDERED instance (order laws only; doubles without NaN ends):
+    ends that the order tells apart, or identical ends, give the same outcome, tag and evaluation trace in both orders.
+    _partial: ends that compare equal without being identical (+0 and -0 on doubles) are not covered - the code does
+    not swap them and calls the function on them in the order given. *)
+Theorem C02_order_irrelevant_ordered_partial {T : Type} (Ops : NumOps T) (OL : OrdLaws Ops) (f : T -> T) (a b acc : T) :
+  nltb Ops a b = true \/ nltb Ops b a = true \/ a = b ->
+  find_root_h Ops f a b acc = find_root_h Ops f b a acc.
+Proof. exact (order_irrelevant_ordered Ops OL f a b acc). Qed.
+Print Assumptions C02_order_irrelevant_ordered_partial.
+
+(** Histories over the reals: EVERY answer of EVERY history of requests served by one process is correct for the
+    request at its position - all its evaluations inside that request's bracket, and its outcome as in C02_outcomes
+    ([post]: zero end / exact zero / end of a sign-change bracket narrower than acc / 2^-2200 of the width; exit only
+    for equal strict signs) - whatever the earlier requests were.  (Induction over the history.) *)
+Theorem C02_history_all_answers_correct (reqs : list ((R -> R) * R * R * R)) (k : nat) o :
+  nth_error (find_root_seq ROps reqs) k = Some o ->
+  exists f a b acc, nth_error reqs k = Some (f, a, b, acc) /\
+    List.Forall (fun x => Rmin a b <= x <= Rmax a b) (snd o) /\ post f a b acc (fst o).
+Proof. exact (seq_all_answers_correct reqs k o). Qed.
+Print Assumptions C02_history_all_answers_correct.
+(** hypotheses satisfiable: [seq_all_answers_example] (a history of two requests has a second answer). *)
